@@ -224,6 +224,11 @@ impl Model<Asn<Unresolved>> {
         iter.next_separator_eq_or_err(delimiter)?;
         let token = iter.next_or_err()?;
 
+        if token.eq_separator(delimiter) {
+            // empty literal: the closing delimiter follows immediately
+            return Ok([delimiter, delimiter].iter().collect());
+        }
+
         let first_text = token.text().unwrap_or_default();
         let mut string = String::from(delimiter);
         string.push_str(first_text);
